@@ -16,6 +16,7 @@ sub-pool that shares a dedicated meter with devices outside the pool use the sha
 -/
 import Frequenz.Lemmas.GraphFormulas
 import Frequenz.Lemmas.GraphVisited
+import Frequenz.Lemmas.GraphTie
 
 open Graph Extracted.Graph
 
@@ -383,4 +384,92 @@ example :
     g.admissible = true ∧ batErrL g.allBats g.succ = false
       ∧ (batteryFormula g g.allBats).toOption.map (fun ts => ts.map (fun t => (t.id, t.fb.map (·.1))))
           = some [(3, [4, 5, 6])] := by
+  decide +kernel
+
+/-! ## The hand-written model is the current source text -/
+
+/-- **Model is source.**  `Extracted.GraphLoops.*` is machine-translated on every run from the current text of
+`component_graph.py` and of the formula generators (`tools/extractors/graph_loops.py`: symbolic execution of the Python
+functions on components-with-their-place, loops summarised by what they compute, `dfs` as a fuel-recursive function).
+For ALL graphs / components:
+(1) `is_grid_meter`, the four device tests, the four `is_*_meter` and the four `is_*_chain` are the model's
+    `isGridMeter`, `leafTest`, `meterPred`, `chain` (at the component's position);
+(2) `_is_primary_fallback_pair` and `_get_meter_fallback_components` are the model's `isPrimaryFallbackPair` /
+    `meterFallback`;
+(3) `dfs(grid, set(), cond)` — the Python function with its `visited` set, translated with fuel (recursive as it is
+    written today; an iterative rewrite with an explicit stack is translated as a worklist loop and goes through
+    `GraphTie.work_spec`) — returns exactly the components of the model's `dfsFromGrid`, as a set (in some order,
+    without duplicates), for every condition that agrees with a model condition on meters
+    and devices and rejects grid and batteries, on every graph with `GraphTie.DistinctIds` (grid / meter / device ids
+    pairwise distinct and different from the battery ids; batteries may be shared);
+(4) one iteration of `_get_metric_fallback_components` is: the primary category gets its meter-fallback components;
+    another component joins the entry of its predecessor iff the two are a primary/fallback pair and
+    (`pairRequiresAllRequested`) all successors of the predecessor were requested; else it is its own primary — and on
+    components with distinct ids none of which is so paired the whole loop makes one entry per component, in order;
+(5) `GridPowerFormula.generate()`, `ProducerPowerFormula.generate()` and `ConsumerPowerFormula.generate()` (both
+    branches; the conditions handed to `dfs`, `_are_grid_meters`, which ids are pushed with which sign,
+    `nones_are_zeros` and fallback formula) equal the model's `gridFormula` (as lists), `producerFormula` and
+    `consumerFormula` (`GraphTie.FormulaEquiv`: the same error, or the same terms up to their order — Python iterates
+    over sets). -/
+theorem C12_model_is_source :
+    (∀ (root : Grid) (anc : List Node) (n : Node),
+      Extracted.GraphLoops.isGridMeter (GraphTie.mk root anc n) = isGridMeter (GraphTie.posOf root anc) n
+      ∧ Extracted.GraphLoops.isPvInverter (GraphTie.mk root anc n) = leafTest .pvInverter n
+      ∧ Extracted.GraphLoops.isBatteryInverter (GraphTie.mk root anc n) = leafTest .batteryInverter n
+      ∧ Extracted.GraphLoops.isEvCharger (GraphTie.mk root anc n) = leafTest .evCharger n
+      ∧ Extracted.GraphLoops.isChp (GraphTie.mk root anc n) = leafTest .chp n
+      ∧ Extracted.GraphLoops.isPvMeter (GraphTie.mk root anc n) = meterPred .pvMeter (GraphTie.posOf root anc) n
+      ∧ Extracted.GraphLoops.isBatteryMeter (GraphTie.mk root anc n) = meterPred .batteryMeter (GraphTie.posOf root anc) n
+      ∧ Extracted.GraphLoops.isEvChargerMeter (GraphTie.mk root anc n) = meterPred .evChargerMeter (GraphTie.posOf root anc) n
+      ∧ Extracted.GraphLoops.isChpMeter (GraphTie.mk root anc n) = meterPred .chpMeter (GraphTie.posOf root anc) n
+      ∧ Extracted.GraphLoops.isPvChain (GraphTie.mk root anc n) = chain .pv (GraphTie.posOf root anc) n
+      ∧ Extracted.GraphLoops.isBatteryChain (GraphTie.mk root anc n) = chain .battery (GraphTie.posOf root anc) n
+      ∧ Extracted.GraphLoops.isEvChargerChain (GraphTie.mk root anc n) = chain .evCharger (GraphTie.posOf root anc) n
+      ∧ Extracted.GraphLoops.isChpChain (GraphTie.mk root anc n) = chain .chp (GraphTie.posOf root anc) n) ∧
+    (∀ (root : Grid) (ancp anc : List Node) (p n : Node),
+      Extracted.GraphLoops.isPrimaryFallbackPair (GraphTie.mk root ancp p) (GraphTie.mk root anc n)
+        = isPrimaryFallbackPair (GraphTie.posOf root ancp) p n) ∧
+    (∀ (root : Grid) (anc : List Node) (n : Node),
+      Extracted.GraphLoops.meterFallbackComponents (GraphTie.mk root anc n)
+        = (meterFallback n).map (GraphTie.mk root (n :: anc))) ∧
+    (∀ (g : Grid) (condS : Comp → Bool) (condM : Pos → Node → Bool),
+      (∀ anc n, condS (GraphTie.mk g anc n) = condM (GraphTie.posOf g anc) n) →
+      (∀ b anc, condS ⟨.bat b, anc, g⟩ = false) → condS g.comp = false → GraphTie.DistinctIds g →
+      ((Extracted.GraphLoops.dfs g.fuel g.comp [] condS).2.map Comp.found).Perm (dfsFromGrid condM g)
+        ∧ ((Extracted.GraphLoops.dfs g.fuel g.comp [] condS).2.map Comp.id).Nodup) ∧
+    (∀ (comps : List Comp) (d : CDict) (root : Grid) (anc : List Node) (n : Node),
+      Extracted.GraphLoops.mfcStep comps d (GraphTie.mk root anc n) =
+        if n.cat == fallbackPrimaryCat then
+          CDict.set d (GraphTie.mk root anc n) (Extracted.GraphLoops.meterFallbackComponents (GraphTie.mk root anc n))
+        else if Extracted.GraphLoops.isPrimaryFallbackPair (firstComp (GraphTie.mk root anc n).preds) (GraphTie.mk root anc n)
+            && (!pairRequiresAllRequested || subsetIds (firstComp (GraphTie.mk root anc n).preds).succs comps)
+          then CDict.addTo d (firstComp (GraphTie.mk root anc n).preds) (GraphTie.mk root anc n)
+        else CDict.set d (GraphTie.mk root anc n) []) ∧
+    (∀ (l : List Comp), (l.map Comp.id).Nodup →
+      (∀ x ∈ l, x.cat ≠ Cat.meter → Extracted.GraphLoops.isPrimaryFallbackPair (firstComp x.preds) x = false) →
+      Extracted.GraphLoops.metricFallbackComponents l = l.map GraphTie.ownEntry) ∧
+    (∀ g : Grid, (g.succ.map Node.id).Nodup → Extracted.GraphLoops.gridFormula g true = gridFormula g) ∧
+    (∀ g : Grid, GraphTie.DistinctIds g →
+      GraphTie.FormulaEquiv (Extracted.GraphLoops.producerFormula g true) (producerFormula g)) ∧
+    (∀ g : Grid, GraphTie.DistinctIds g →
+      GraphTie.FormulaEquiv (Extracted.GraphLoops.consumerFormula g true) (consumerFormula g)) :=
+  ⟨fun root anc n =>
+      ⟨GraphTie.isGridMeter_tie root anc n, (GraphTie.leaf_tie root anc n).1, (GraphTie.leaf_tie root anc n).2.1,
+        (GraphTie.leaf_tie root anc n).2.2.1, (GraphTie.leaf_tie root anc n).2.2.2,
+        (GraphTie.meter_tie root anc n).1, (GraphTie.meter_tie root anc n).2.1, (GraphTie.meter_tie root anc n).2.2.1,
+        (GraphTie.meter_tie root anc n).2.2.2, (GraphTie.chain_tie root anc n).1, (GraphTie.chain_tie root anc n).2.1,
+        (GraphTie.chain_tie root anc n).2.2.1, (GraphTie.chain_tie root anc n).2.2.2⟩,
+    GraphTie.pair_tie, GraphTie.meterFallback_tie,
+    fun g condS condM hc hb hg hd =>
+      ⟨(GraphTie.dfs_facts.fromGrid g condS condM hc hb hg hd).1, (GraphTie.dfs_facts.fromGrid g condS condM hc hb hg hd).2.1⟩,
+    GraphTie.mfcStep_tie, GraphTie.mfc_eq, GraphTie.grid_tie, GraphTie.producer_tie GraphTie.dfs_facts,
+    GraphTie.consumer_tie GraphTie.dfs_facts⟩
+
+/-- Non-vacuity: the example graph has distinct ids, and the machine-translated generators compute on it the
+non-trivial formulas of the model (consumer = `#2 − #3 − #6 − #10 − #13 − #14`, in some order). -/
+example : GraphTie.DistinctIds C12_ex
+    ∧ ((Extracted.GraphLoops.consumerFormula C12_ex true).toOption.map (fun ts => ts.map (fun t => (t.neg, t.id)))).any
+        (fun l => l.length == 6
+          && [(false, 2), (true, 3), (true, 6), (true, 10), (true, 13), (true, 14)].all (fun p => l.contains p)) = true := by
+  refine ⟨⟨by decide, by decide⟩, ?_⟩
   decide +kernel
